@@ -86,6 +86,8 @@ def seeded_items(prop: Optional[str]) -> List[Dict[str, object]]:
             m = json.load(fh)
         if prop is not None and m.get("property") != prop:
             continue
+        if m.get("open"):
+            continue  # recorded as NOT decided today (meta.json says why); listed in DESIGN, never counted as caught
         out.append({"id": "seed-" + m["id"], "prop": m["property"], "rule": m["property"] + ".", "what": (m.get("summary") or "")[:80],
                     "patch": os.path.join(os.path.dirname(mf), "patch.diff"), "edits": []})
     return out
